@@ -1073,7 +1073,7 @@ theorem eofLoop_E0 (o1 o2 : Opts) (fuel : Nat) : ∀ {a b : Mach}, E0 a b →
     | panic e => rfl
 
 /-- one round of the char-ref tokenizer's `end_of_file` (the local `once` of `crEof`) -/
-def crEofOnce (o : Opts) (m : Mach) (inp : Str) (cr : CharRefSt) : CRRes :=
+def crEofOnceE (o : Opts) (m : Mach) (inp : Str) (cr : CharRefSt) : CRRes :=
   match cr.state with
   | .begin => .ok (m, inp, cr, .done [])
   | .numeric _ =>
@@ -1096,16 +1096,16 @@ def crEofDrive (o : Opts) : CRRes → Except String (Mach × Str × Str)
   | .error e => .error e
   | .ok (m, inp, _, .done chars) => .ok (m, inp, chars)
   | .ok (_, _, _, .stuck) => .error "end_of_file: unexpected Stuck"
-  | .ok (m, inp, cr, .progress) => crEofLast (crEofOnce o m inp cr)
+  | .ok (m, inp, cr, .progress) => crEofLast (crEofOnceE o m inp cr)
 
-theorem crEof_eq (o : Opts) (m : Mach) (inp : Str) (cr : CharRefSt) :
-    crEof o m inp cr = crEofDrive o (crEofOnce o m inp cr) := by
-  unfold crEof crEofDrive crEofLast crEofOnce
+theorem crEof_eqE (o : Opts) (m : Mach) (inp : Str) (cr : CharRefSt) :
+    crEof o m inp cr = crEofDrive o (crEofOnceE o m inp cr) := by
+  unfold crEof crEofDrive crEofLast crEofOnceE
   rfl
 
 theorem crEofOnce_CRE (o1 o2 : Opts) {a b : Mach} (h : E a b) (inp : Str) (cr : CharRefSt) :
-    CRE (crEofOnce o1 a inp cr) (crEofOnce o2 b inp cr) := by
-  unfold crEofOnce
+    CRE (crEofOnceE o1 a inp cr) (crEofOnceE o2 b inp cr) := by
+  unfold crEofOnceE
   dsimp only
   split <;> (repeat' split) <;>
     first
@@ -1166,11 +1166,11 @@ theorem crEofDrive_CEE (o1 o2 : Opts) {r1 r2 : CRRes} (h : CRE r1 r2) :
 
 theorem crEof_CEE (o1 o2 : Opts) {a b : Mach} (h : E a b) (inp : Str) (cr : CharRefSt) :
     CEE (crEof o1 a inp cr) (crEof o2 b inp cr) := by
-  rw [crEof_eq, crEof_eq]
+  rw [crEof_eqE, crEof_eqE]
   exact crEofDrive_CEE o1 o2 (crEofOnce_CRE o1 o2 h inp cr)
 
 /-- the part of `XmlTokenizer::end` before the final `run`: finish a pending character reference -/
-def finishPre (o : Opts) (m : Mach) : Except String (Mach × Str) :=
+def finishPreE (o : Opts) (m : Mach) : Except String (Mach × Str) :=
   match m.charRef with
   | none => .ok (m, [])
   | some cr =>
@@ -1189,11 +1189,11 @@ def finishPost (o : Opts) (mi : Mach × Str) : Except String Mach :=
   | .panic e => .error e
   | .outOfFuel => .error "run out of fuel"
 
-theorem finish_eq (o : Opts) (m : Mach) :
-    finish o m = match finishPre o m with
+theorem finish_eqE (o : Opts) (m : Mach) :
+    finish o m = match finishPreE o m with
       | .error e => .error e
       | .ok mi => finishPost o mi := by
-  unfold finish finishPre finishPost
+  unfold finish finishPreE finishPost
   cases m.charRef with
   | none => rfl
   | some cr =>
@@ -1207,15 +1207,15 @@ theorem finish_eq (o : Opts) (m : Mach) :
       obtain ⟨p1, p2⟩ := p
       cases p2 <;> rfl
 
-/-- relation between two results of `finishPre` -/
+/-- relation between two results of `finishPreE` -/
 def PreE (r1 r2 : Except String (Mach × Str)) : Prop :=
   match r1, r2 with
   | .ok v1, .ok v2 => E v1.1 v2.1 ∧ v1.2 = v2.2
   | .error x, .error y => x = y
   | _, _ => False
 
-theorem finishPre_PreE (o1 o2 : Opts) {a b : Mach} (h : E a b) : PreE (finishPre o1 a) (finishPre o2 b) := by
-  unfold finishPre
+theorem finishPre_PreE (o1 o2 : Opts) {a b : Mach} (h : E a b) : PreE (finishPreE o1 a) (finishPreE o2 b) := by
+  unfold finishPreE
   rw [h.1.charRef]
   cases a.charRef with
   | none => exact ⟨h, rfl⟩
@@ -1271,10 +1271,10 @@ theorem finishPost_E (o1 o2 : Opts) {a b : Mach} (h : E a b) (inp : Str) :
 with the same tokens up to parse errors** -/
 theorem finish_E (o1 o2 : Opts) {a b : Mach} (h : E a b) :
     (finish o1 a).map (fun m => noErr m.out) = (finish o2 b).map (fun m => noErr m.out) := by
-  rw [finish_eq, finish_eq]
+  rw [finish_eqE, finish_eqE]
   have hpre := finishPre_PreE o1 o2 h
-  generalize finishPre o1 a = r1 at hpre
-  generalize finishPre o2 b = r2 at hpre
+  generalize finishPreE o1 a = r1 at hpre
+  generalize finishPreE o2 b = r2 at hpre
   cases r1 with
   | error e1 =>
     cases r2 with
